@@ -22,7 +22,7 @@ NA = {
 
 CLAIMS = {
  "C04": ("exploration", "DESIGN.md §4 C04",
-         "Seeded simulation of `run` versus `compile`+`execute` over the example corpus, generated programs of every feature area, multi-module projects and the exhaustive string enumeration, with the file system behind the shim (short/EINTR reads and writes, stale and torn artefacts from killed compiles, per-process hash seeds) and the collector under a seeded schedule; oracle: stdout and exit class equal, loaded instruction streams equal (hook dump); workloads also include the 143 programs of the repository's test-suite and size/shape templates; the entry path is spelled five ways, `run` takes --profile/--no-pb, files may report size 0 (statx) and renames across directories may fail (EXDEV); a two-process batch stops one mscript at its k-th open/read/write, runs a second one in a sibling project with the same file names and a shared TMPDIR, and requires both to be unaffected.",
+         "Seeded simulation of `run` versus `compile`+`execute` over the example corpus, generated programs of every feature area, multi-module projects and the exhaustive string enumeration, with the file system behind the shim (short/EINTR reads and writes, stale and torn artefacts from killed compiles, per-process hash seeds) and the collector under a seeded schedule; oracle: stdout and exit class equal, loaded instruction streams equal (hook dump); workloads also include the 143 programs of the repository's test-suite and size/shape templates; the entry path is spelled five ways, `run` takes --profile/--no-pb, files may report size 0 (statx) and renames across directories may fail (EXDEV); a two-process batch stops one mscript at its k-th open/read/write, runs a second one in a sibling project with the same file names and a shared TMPDIR, and requires both to be unaffected. Project histories: 3-10 operations on one four-module project — edits of single modules (next revision), run, compile, compile of a dependency only, execute, clean, deletion of one artefact, commands killed at their k-th write/open/read (torn artefacts survive), artefacts that cannot be written — under five policies of the project's file times (steady, standing still, backwards, old-dated sources, future artefacts); oracle: a revision model (`run` prints what the current sources print, `execute` what the revisions its artefacts were compiled from print).",
          "real binary built from /repo with --cfg mscript_verif; shim sees libc calls; under injected I/O errors a process that was hit may fail (then nothing downstream is judged), but if it reports success the ordinary oracle applies",
          "deterministic simulation: libc fault-injection shim + seeded GC schedule, differential oracle run vs compile+execute"),
  "C07": ("exploration", "DESIGN.md §4 C07",
@@ -54,7 +54,7 @@ CLAIMS = {
          "probe library is a test double built against /repo/bytecode",
          "deterministic simulation: dynamic-loader fault injection (dlopen/dlsym) with a probe library as the foreign peer"),
  "C20": ("fault_enumeration", "DESIGN.md §4 C20",
-         "Directory trees from the property's name set x entry kinds, every readdir permutation of small directories, unlink/readdir/stdout faults and kill points injected by the shim; oracle: before/after snapshot against a set model — safety under every plan, completeness and reported count under fault-free and benign plans; DIR spelled eight ways (also through a symlink), a PWD that names another directory.",
+         "Directory trees from the property's name set x entry kinds, every readdir permutation of small directories, unlink/readdir/stdout faults and kill points injected by the shim; oracle: before/after snapshot against a set model — safety under every plan, completeness and reported count under fault-free and benign plans; DIR spelled eight ways (also through a symlink), a PWD that names another directory. Project histories: `clean .` / `clean lib` (also killed before its k-th unlink) inside histories of real compiles, runs, edits and killed compiles on a four-module project with a sub-directory; same snapshot oracle.",
          "root cannot create a read-only directory, EACCES is injected instead",
          "deterministic simulation: readdir-order and unlink fault injection via libc shim, snapshot vs set model"),
 }
